@@ -1532,7 +1532,7 @@ Proof.
   assert (Hfold : forall l w0, WF w0 -> WF (fold_left (apply_one parent tip p rev) l w0)).
   { induction l as [|q r IH]; intros w0 H0; cbn [fold_left]; [exact H0|].
     apply IH. now apply apply_one_wf. }
-  match goal with |- WF (clean_old_unconfirmed ?x tip) => assert (H1 : WF x); [|generalize dependent x; intros w1 H1] end.
+  match goal with |- WF (clean_old_unconfirmed ?x parent tip) => assert (H1 : WF x); [|generalize dependent x; intros w1 H1] end.
   { destruct (tip <? _); [exact Hn|]. unfold WF. cbn [w_outs with_confh with_log]. now apply Hfold. }
   unfold clean_old_unconfirmed. destruct (tip <? 50); [exact H1|].
   unfold WF. cbn [w_outs with_outs].
